@@ -46,6 +46,10 @@ ASSUMPTIONS = [
 ]
 
 CMDS = ["transform", "simphenotype", "ld", "index", "clump", "simgenotype", "karyogram"]
+# file shapes for which holds demands "file == repeated options" (C19_Model.shape) ...
+USER_STYLES = ["lf", "nofinal", "crlf", "crlf_nofinal", "lf_blank", "crlf_blank"]
+# ... and layouts where only the model/implementation agreement is checked
+ODD_STYLES = ["blank", "vt", "u2028", "empty"]
 ENTRY_POOL = ["S0", "S1", "S2", "S3", "NA12878", "HG00096", "H0", "H1", "H2", "chr21.q.3365*1", "rs429358",
               "sample 1", "a\tb", "ü", "x.y", "unknownID"]
 
@@ -57,13 +61,15 @@ def main_cmd():
 
 
 def invoke(args):
-    """-> (exit_code, exception class name or None, raised?)"""
+    """-> (exit_code, exception class name or None, raised?, tail of the output, usage-error text shown?)"""
     from click.testing import CliRunner
 
     res = CliRunner().invoke(main_cmd(), args)
     exc = res.exception
     raised = exc is not None and not (isinstance(exc, SystemExit) and exc.code in (0, None))
-    return int(res.exit_code), (type(exc).__name__ if exc is not None else None), bool(raised), res.output[-300:]
+    usage = "Usage:" in res.output and "Error:" in res.output
+    return (int(res.exit_code), (type(exc).__name__ if exc is not None else None), bool(raised), res.output[-300:],
+            bool(usage))
 
 
 # ---------------------------------------------------------------------------
@@ -77,6 +83,12 @@ def file_text(entries, style):
         return "".join(e + "\r\n" for e in entries)
     if style == "nofinal":
         return "\n".join(entries)
+    if style == "crlf_nofinal":
+        return "\r\n".join(entries)
+    if style == "lf_blank":
+        return "".join(e + "\n" for e in entries) + "\n"
+    if style == "crlf_blank":
+        return "".join(e + "\r\n" for e in entries) + "\r\n"
     if style == "blank":
         return "\n".join(entries[:1] + [""] + entries[1:]) + "\n"
     if style == "vt":
@@ -129,11 +141,20 @@ class Resolve(Relation):
         if rng.random() < 0.05:
             entries[int(rng.integers(0, n))] = ""
         form = ["opts", "file", "both"][int(rng.choice(3, p=[0.4, 0.45, 0.15] if allow_both else [0.45, 0.5, 0.05]))]
-        style = "lf"
-        if form != "opts" and rng.random() < 0.35:
-            style = ["crlf", "nofinal", "blank", "vt", "u2028", "empty"][int(rng.integers(0, 6))]
+        # the style is drawn for every selection: a selection made with repeated options is re-run as a
+        # file of that style (and the other way round)
+        r = rng.random()
+        if r < 0.3:
+            style = "lf"
+        elif r < 0.8:
+            style = USER_STYLES[1 + int(rng.integers(0, len(USER_STYLES) - 1))]
+        else:
+            style = ODD_STYLES[int(rng.integers(0, len(ODD_STYLES)))]
             if style == "empty":
-                entries = []
+                if form == "opts":
+                    style = "lf"
+                else:
+                    entries = []
         return entries, form, style
 
     def generate(self, rng, n, tier):
@@ -154,6 +175,14 @@ class Resolve(Relation):
                         for i in (None, ["H1"], ["H2", "unknownID", "H1"]):
                             out.append({"cmd": cmd, "samples": s, "sform": sf, "sstyle": "lf", "ids": i, "iform": if_,
                                         "istyle": "lf", "spell": 0})
+            # every file shape x every list length 1..3 (incl. an empty last entry), both selections, both directions
+            for st in USER_STYLES + ODD_STYLES[:3]:
+                for form in ("opts", "file"):
+                    for l in (["A"], ["AB", "C"], ["S1", "S0", "S1"], ["A", ""], ["NA12", "NA1"]):
+                        out.append({"cmd": cmd, "samples": l, "sform": form, "sstyle": st, "ids": None, "iform": "opts",
+                                    "istyle": "lf", "spell": 0})
+                        out.append({"cmd": cmd, "samples": None, "sform": "opts", "sstyle": "lf", "ids": l, "iform": form,
+                                    "istyle": st, "spell": 0})
         return out
 
     def _invoke(self, inp, d, tag, swap):
@@ -164,8 +193,8 @@ class Resolve(Relation):
         if swap:
             sform = {"opts": "file", "file": "opts"}[sform]
             iform = {"opts": "file", "file": "opts"}[iform]
-        sa, sopts, stext = selection_args("s", sform, inp["samples"], "lf" if swap else inp["sstyle"], inp["spell"], d, tag)
-        ia, iopts, itext = selection_args("i", iform, inp["ids"], "lf" if swap else inp["istyle"], inp["spell"] >> 3, d, tag)
+        sa, sopts, stext = selection_args("s", sform, inp["samples"], inp["sstyle"], inp["spell"], d, tag)
+        ia, iopts, itext = selection_args("i", iform, inp["ids"], inp["istyle"], inp["spell"] >> 3, d, tag)
         gt = os.path.join(d, "g.vcf")
         hp = os.path.join(d, "h.hap")
         for p in (gt, hp):
@@ -182,7 +211,7 @@ class Resolve(Relation):
         setattr(mod, fn, rec)
         try:
             args = [CMDS[cmd]] + sa + ia + (["TARGET"] if cmd == 2 else []) + [gt, hp]
-            code, exc, raised, tail = invoke(args)
+            code, exc, raised, tail, usage = invoke(args)
         finally:
             setattr(mod, fn, saved)
 
@@ -196,7 +225,8 @@ class Resolve(Relation):
         g = None
         if got:
             g = [dump(got[0][0], False), dump(got[0][1], cmd == 2)]
-        return {"sopts": sopts, "sfile": stext, "iopts": iopts, "ifile": itext, "exit": code, "exc": exc, "got": g}
+        return {"sopts": sopts, "sfile": stext, "iopts": iopts, "ifile": itext, "exit": code, "exc": exc, "got": g,
+                "usage": usage, "tail": tail if code else ""}
 
     def run_impl(self, inp):
         d = tempfile.mkdtemp(prefix="hv_c19_")
@@ -220,11 +250,11 @@ class Resolve(Relation):
         kind = lambda c: 0 if c is None else {"set": 1, "tuple": 2}.get(c["t"], 3)
         kinds = "(0, 0)" if v["got"] is None else f"({kind(v['got'][0])}, {kind(v['got'][1])})"
         return (f"(mkinv {strs(v['sopts'])} {ostr(v['sfile'])} {strs(v['iopts'])} {ostr(v['ifile'])} "
-                f"{L.z(v['exit'])} {got} {kinds})")
+                f"{L.z(v['exit'])} {got} {kinds} {L.b(v.get('usage', False))})")
 
     def encode(self, inp, obs):
         if "a" not in obs:
-            return f"(mkr {inp['cmd']} (mkinv [] None [] None 97 None (0, 0)) None)"
+            return f"(mkr {inp['cmd']} (mkinv [] None [] None 97 None (0, 0) false) None)"
         b = "None" if obs["b"] is None else f"(Some {self._inv(obs['b'])})"
         return f"(mkr {inp['cmd']} {self._inv(obs['a'])} {b})"
 
@@ -287,6 +317,11 @@ class Resolve(Relation):
 # ---------------------------------------------------------------------------
 # relation cli: generated inputs
 
+SEED_BOUNDARY = [0, 1, 42, 2**32 - 1]
+UNKNOWN_S = ["NOSUCHSAMPLE", "NOSUCHSAMPLE2"]
+UNKNOWN_I = ["NOSUCHID", "NOSUCHID2"]
+POPS = ["YRI", "CEU"]
+
 
 def gen_dataset(rng):
     n = int(rng.integers(3, 7))
@@ -305,16 +340,19 @@ def gen_dataset(rng):
         idx = sorted(int(x) for x in rng.choice(m, size=min(k, m), replace=False))
         hv = [[variants[j][0], variants[j][1], "AT"[int(rng.integers(0, 2))]] for j in idx]
         haps.append({"id": f"H{h}", "start": hv[0][1], "end": hv[-1][1] + 1, "beta": round(float(rng.normal()), 2),
-                     "vars": hv})
+                     "vars": hv, "anc": POPS[int(rng.integers(0, 2))]})
     hgts = rng.integers(0, 2, size=(nh, n, 2)).tolist()
-    return {"samples": samples, "variants": variants, "gts": gts, "haps": haps, "hgts": hgts}
+    # local ancestry of every allele (only written when transform --ancestry is exercised)
+    pop = rng.integers(0, 2, size=(m, n, 2)).tolist()
+    return {"samples": samples, "variants": variants, "gts": gts, "haps": haps, "hgts": hgts, "pop": pop}
 
 
-def write_vcf(path, samples, recs):
-    """recs: (chrom, pos, id, ref, alt, [[a,b] per sample]); writes bgzip + tabix"""
+def write_vcf(path, samples, recs, pop=None):
+    """recs: (chrom, pos, id, ref, alt, [[a,b] per sample]); path ends in .vcf.gz (bgzip + tabix) or .bcf (+ csi);
+    pop[j][s] = two label indices -> FORMAT field POP"""
     import pysam
 
-    plain = path[:-3]
+    plain = path[: -len(".vcf.gz")] + ".tmp.vcf" if path.endswith(".vcf.gz") else path[: -len(".bcf")] + ".tmp.vcf"
     chroms = []
     for r in recs:
         if r[0] not in chroms:
@@ -324,26 +362,77 @@ def write_vcf(path, samples, recs):
         for c in chroms:
             f.write(f"##contig=<ID={c}>\n")
         f.write("##FORMAT=<ID=GT,Number=1,Type=String,Description=\"Genotype\">\n")
+        if pop is not None:
+            f.write("##FORMAT=<ID=POP,Number=2,Type=String,Description=\"Origin Population of each respective allele in GT\">\n")
         f.write("#CHROM\tPOS\tID\tREF\tALT\tQUAL\tFILTER\tINFO\tFORMAT\t" + "\t".join(samples) + "\n")
-        for c, p, i, ref, alt, g in recs:
-            f.write(f"{c}\t{p}\t{i}\t{ref}\t{alt}\t.\t.\t.\tGT\t" + "\t".join(f"{a}|{b}".replace("-1", ".") for a, b in g) + "\n")
-    pysam.tabix_compress(plain, path, force=True)
+        for j, (c, p, i, ref, alt, g) in enumerate(recs):
+            cells = []
+            for s_, (a, b) in enumerate(g):
+                cell = f"{a}|{b}".replace("-1", ".")
+                if pop is not None:
+                    cell += f":{POPS[pop[j][s_][0]]},{POPS[pop[j][s_][1]]}"
+                cells.append(cell)
+            f.write(f"{c}\t{p}\t{i}\t{ref}\t{alt}\t.\t.\t.\tGT{':POP' if pop is not None else ''}\t" + "\t".join(cells) + "\n")
+    if path.endswith(".bcf"):
+        import pysam.bcftools as bcftools
+
+        bcftools.view("-O", "b", "-o", path, plain, catch_stdout=False)
+        bcftools.index(path)
+    else:
+        pysam.tabix_compress(plain, path, force=True)
+        pysam.tabix_index(path, preset="vcf", force=True)
     os.unlink(plain)
-    pysam.tabix_index(path, preset="vcf", force=True)
 
 
-def write_dataset(ds, d):
-    gt = os.path.join(d, "gts.vcf.gz")
-    write_vcf(gt, ds["samples"], [("1", p, i, "A", "T", ds["gts"][j]) for j, (i, p) in enumerate(ds["variants"])])
-    hg = os.path.join(d, "hapgts.vcf.gz")
-    write_vcf(hg, ds["samples"], [("1", h["start"], h["id"], "A", "T", ds["hgts"][j])
-                                  for j, h in enumerate(sorted(ds["haps"], key=lambda h: h["start"]))])
+def write_pgen(path, samples, recs):
+    """the same records as a PGEN/PVAR/PSAM triple, written with pgenlib directly"""
+    import pgenlib
+
+    base = path[: -len(".pgen")]
+    with open(base + ".psam", "w") as f:
+        f.write("#IID\tSEX\n" + "".join(f"{s}\tNA\n" for s in samples))
+    with open(base + ".pvar", "w") as f:
+        f.write("#CHROM\tPOS\tID\tREF\tALT\n" + "".join(f"{c}\t{p}\t{i}\t{ref}\t{alt}\n" for c, p, i, ref, alt, _ in recs))
+    with pgenlib.PgenWriter(filename=path.encode(), sample_ct=len(samples), variant_ct=len(recs), nonref_flags=False,
+                            allele_ct_limit=2, hardcall_phase_present=True) as w:
+        for rec in recs:
+            row = np.array([(-9 if x < 0 else x) for ab in rec[5] for x in ab], dtype=np.int32)
+            w.append_alleles(row, all_phased=True)
+
+
+def write_gts(base, fmt, samples, recs, pop=None):
+    path = base + {"vcf": ".vcf.gz", "bcf": ".bcf", "pgen": ".pgen"}[fmt]
+    if fmt == "pgen":
+        write_pgen(path, samples, recs)
+    else:
+        write_vcf(path, samples, recs, pop)
+    return path
+
+
+def write_dataset(ds, d, fmt="vcf", ancestry=False, effects="hap"):
+    gt = write_gts(os.path.join(d, "gts"), fmt, ds["samples"],
+                   [("1", p, i, "A", "T", ds["gts"][j]) for j, (i, p) in enumerate(ds["variants"])],
+                   ds.get("pop") if ancestry else None)
     # records must be position sorted for tabix
+    order = sorted(range(len(ds["haps"])), key=lambda j: ds["haps"][j]["start"])
+    hg = write_gts(os.path.join(d, "hapgts"), fmt, ds["samples"],
+                   [("1", ds["haps"][j]["start"], ds["haps"][j]["id"], "A", "T", ds["hgts"][j]) for j in order])
+    if effects == "snplist":
+        hp = os.path.join(d, "effects.snplist")
+        with open(hp, "w") as f:
+            for h in ds["haps"]:
+                f.write(f"{h['id']}\t{h['beta']:.2f}\n")
+        return gt, hg, hp
     hp = os.path.join(d, "haps.hap")
     with open(hp, "w") as f:
-        f.write("#\torderH\tbeta\n#\tversion\t0.2.0\n#H\tbeta\t.2f\tEffect size in linear model\n")
+        if ancestry:
+            f.write("#\torderH\tancestry\tbeta\n#\tversion\t0.2.0\n#H\tancestry\ts\tLocal ancestry\n"
+                    "#H\tbeta\t.2f\tEffect size in linear model\n")
+        else:
+            f.write("#\torderH\tbeta\n#\tversion\t0.2.0\n#H\tbeta\t.2f\tEffect size in linear model\n")
         for h in ds["haps"]:
-            f.write(f"H\t1\t{h['start']}\t{h['end']}\t{h['id']}\t{h['beta']:.2f}\n")
+            anc = f"\t{h.get('anc', 'YRI')}" if ancestry else ""
+            f.write(f"H\t1\t{h['start']}\t{h['end']}\t{h['id']}{anc}\t{h['beta']:.2f}\n")
         for h in ds["haps"]:
             for v in h["vars"]:
                 f.write(f"V\t{h['id']}\t{v[1]}\t{v[1] + 1}\t{v[0]}\t{v[2]}\n")
@@ -399,6 +488,61 @@ def out_members(cmd, outdir, params):
     return None, None
 
 
+WORD_STRIP = "[](){}'\"`,:;."
+
+
+def words_of(msg):
+    """the words of a log message: split at whitespace, brackets / quotes / punctuation stripped at both ends"""
+    out = []
+    for w in msg.split():
+        w = w.strip(WORD_STRIP)
+        if w:
+            out.append(w)
+    return out
+
+
+class Capture:
+    """records of level >= WARNING that reach the root logger (the commands log on haptools.<command>, the data
+    classes on the logger they are handed) and warnings issued through the warnings module while a command runs"""
+
+    def __init__(self, cmd):
+        self.cmd = cmd
+        self.msgs = []
+
+    def __enter__(self):
+        import logging
+        import warnings
+
+        outer = self
+
+        class H(logging.Handler):
+            def emit(self, rec):
+                if rec.levelno >= logging.WARNING:
+                    try:
+                        outer.msgs.append([int(rec.levelno), rec.getMessage()])
+                    except Exception:  # noqa
+                        outer.msgs.append([int(rec.levelno), str(rec.msg)])
+
+        self.h = H(level=0)
+        # a previous run's StreamHandlers point at streams that are closed by now
+        logging.getLogger("haptools." + self.cmd).handlers.clear()
+        logging.getLogger().addHandler(self.h)
+        self.cw = warnings.catch_warnings(record=True)
+        self.wlist = self.cw.__enter__()
+        warnings.simplefilter("always")
+        return self
+
+    def __exit__(self, *exc):
+        import logging
+
+        self.cw.__exit__(*exc)
+        for w in self.wlist:
+            self.msgs.append([25, f"{w.category.__name__}: {w.message}"])
+        logging.getLogger().removeHandler(self.h)
+        logging.getLogger("haptools." + self.cmd).handlers.clear()
+        return False
+
+
 class Cli(Relation):
     name = "cli"
     coq_module = "C19_Check"
@@ -406,7 +550,7 @@ class Cli(Relation):
     coq_case_type = "ccase"
     coq_model = "model_cli"
     coq_imports = ["C19_Model"]
-    budget = {"quick": 240, "thorough": 4000}
+    budget = {"quick": 300, "thorough": 4000}
     max_cases_per_shard = 50
     timeout_per_case = 300
     anchors = [("haptools/__main__.py", n) for n in
@@ -416,128 +560,192 @@ class Cli(Relation):
     def _selection(self, rng, pool, unknown):
         """(entries or None, form, style)"""
         r = rng.random()
-        if r < 0.35:
+        if r < 0.3:
             return None, "opts", "lf"
         k = int(rng.integers(1, min(len(pool), 3) + 1))
         entries = [pool[int(x)] for x in rng.choice(len(pool), size=k, replace=False)]
-        if rng.random() < 0.25:
-            entries.append(unknown)
+        r = rng.random()
+        if r < 0.3:
+            entries.insert(int(rng.integers(0, len(entries) + 1)), unknown[0])
+        if r < 0.08:
+            entries.append(unknown[1])
         if rng.random() < 0.2:
             entries.append(entries[0])
         form = ["opts", "file"][int(rng.integers(0, 2))]
-        style = "lf"
-        if form == "file" and rng.random() < 0.12:
+        # every selection has a file style: one made with repeated options is re-run from a file of that style
+        style = "lf" if rng.random() < 0.35 else USER_STYLES[int(rng.integers(1, len(USER_STYLES)))]
+        if form == "file" and rng.random() < 0.1:
             style, entries = "empty", []
         return entries, form, style
 
-    def generate(self, rng, n, tier):
-        from . import c01, c11
+    def _seed(self, rng):
+        if rng.random() < 0.5:
+            return SEED_BOUNDARY[int(rng.integers(0, len(SEED_BOUNDARY)))]
+        return int(rng.integers(1, 2**31 - 1))
 
-        out = []
-        for k in range(n):
-            cmd = [0, 1, 2, 3, 4, 5, 6, 0, 1, 2][k % 10]
-            inp = {"cmd": cmd, "spell": int(rng.integers(0, 1 << 12)), "seed": int(rng.integers(1, 2**31 - 1))}
-            if cmd in (0, 1, 2):
-                ds = gen_dataset(rng)
-                inp["data"] = ds
-                s, sf, ss = self._selection(rng, ds["samples"], "NOSUCHSAMPLE")
-                hapids = [h["id"] for h in ds["haps"]]
-                p = {}
-                if cmd == 2:
-                    p["from_gts"] = bool(rng.random() < 0.3)
-                    p["target"] = hapids[int(rng.integers(0, len(hapids)))]
-                    if not p["from_gts"] and rng.random() < 0.3:
-                        p["target"] = ds["variants"][int(rng.integers(0, len(ds["variants"])))][0]
-                    pool = [v[0] for v in ds["variants"]] if p["from_gts"] else [h for h in hapids if h != p["target"]]
-                    i, if_, is_ = self._selection(rng, pool or hapids, "NOSUCHID")
-                else:
-                    i, if_, is_ = self._selection(rng, hapids, "NOSUCHID")
-                if cmd == 1:
-                    p["replications"] = int(rng.integers(1, 3))
-                    p["heritability"] = [None, 0.3][int(rng.integers(0, 2))]
-                    p["prevalence"] = [None, None, 0.4][int(rng.integers(0, 3))]
-                    p["normalize"] = bool(rng.random() < 0.8)
-                if cmd == 0:
-                    p["discard_missing"] = bool(rng.random() < 0.3)
-                    p["maf"] = [None, None, 0.2][int(rng.integers(0, 3))]
-                    p["pgen"] = bool(rng.random() < 0.25)
-                if cmd == 1:
-                    p["environment"] = 0.5 if (p["heritability"] is None and rng.random() < 0.3) else None
-                if cmd == 2:
-                    p["discard_missing"] = bool(rng.random() < 0.3)
-                p["chunk"] = [None, None, 2][int(rng.integers(0, 3))]
-                if cmd in (0, 2) and rng.random() < 0.15:
-                    p["region"] = f"1:{ds['variants'][0][1]}-{ds['variants'][-1][1] + 10}"
-                both = bool(s is not None and s and rng.random() < 0.12)
-                inp.update({"samples": s, "sform": "both" if both else sf, "sstyle": ss, "ids": i, "iform": if_,
-                            "istyle": is_, "params": p})
-            elif cmd == 3:
-                sort = bool(rng.random() < 0.6)
-                inp["lines"] = c11.gen_file(rng, "wf", "shuffled" if sort else ("blocks" if rng.random() < 0.8 else "shuffled"))
-                inp["params"] = {"sort": sort, "explicit": bool(rng.random() < 0.5)}
-            elif cmd == 4:
+    def _case(self, rng, cmd):
+        from . import c01, c11, c17
+
+        inp = {"cmd": cmd, "spell": int(rng.integers(0, 1 << 12)), "seed": self._seed(rng)}
+        verbosity = [None, "INFO", "WARNING", "DEBUG", "ERROR", "CRITICAL"][int(rng.choice(6, p=[.35, .1, .25, .1, .1, .1]))]
+        if cmd in (0, 1, 2):
+            ds = gen_dataset(rng)
+            inp["data"] = ds
+            m = len(ds["variants"])
+            s, sf, ss = self._selection(rng, ds["samples"], UNKNOWN_S)
+            hapids = [h["id"] for h in ds["haps"]]
+            p = {"fmt": ["vcf", "bcf", "pgen"][int(rng.choice(3, p=[0.5, 0.15, 0.35]))]}
+            if cmd == 2:
+                p["from_gts"] = bool(rng.random() < 0.35)
+                p["target"] = hapids[int(rng.integers(0, len(hapids)))]
+                if rng.random() < 0.3:
+                    p["target"] = ds["variants"][int(rng.integers(0, m))][0]
+                pool = [v[0] for v in ds["variants"]] if p["from_gts"] else [h for h in hapids if h != p["target"]]
+                i, if_, is_ = self._selection(rng, pool or hapids, UNKNOWN_I)
+            else:
+                i, if_, is_ = self._selection(rng, hapids, UNKNOWN_I)
+            if cmd == 1:
+                p["replications"] = int(rng.choice([1, 1, 2, 3]))
+                p["heritability"] = [None, 0.3, 0.0, 1.0, 0.5][int(rng.choice(5, p=[.4, .3, .1, .1, .1]))]
+                p["prevalence"] = [None, 0.4, 0.0][int(rng.choice(3, p=[.6, .25, .15]))]
+                p["normalize"] = bool(rng.random() < 0.8)
+                p["environment"] = ([0.5, 0.0][int(rng.integers(0, 2))]
+                                    if (p["heritability"] is None and rng.random() < 0.3) else None)
+                p["effects"] = "snplist" if rng.random() < 0.25 else "hap"
+            if cmd == 0:
+                p["discard_missing"] = bool(rng.random() < 0.3)
+                p["maf"] = [None, 0.2, 0.0, 0.5][int(rng.choice(4, p=[.55, .2, .15, .1]))]
+                p["pgen"] = bool(rng.random() < 0.25)
+                p["ancestry"] = bool(p["fmt"] != "pgen" and rng.random() < 0.25)
+            if cmd == 2:
+                p["discard_missing"] = bool(rng.random() < 0.3)
+            # chunk sizes matter for PGEN: 1, 2, exactly all variants, more than there are
+            p["chunk"] = ([None, 1, 2, m, m + 3][int(rng.integers(0, 5))] if (p["fmt"] == "pgen" or p.get("pgen"))
+                          else [None, None, 2][int(rng.integers(0, 3))])
+            if rng.random() < 0.25:
+                lo, hi = ds["variants"][0][1], ds["variants"][-1][1]
+                mid = ds["variants"][m // 2][1]
+                p["region"] = ["1", f"1:{lo}-{hi + 10}", f"1:{lo}-{mid}", f"1:{mid}-{hi}"][int(rng.integers(0, 4))]
+            both = bool(s is not None and s and rng.random() < 0.1)
+            inp.update({"samples": s, "sform": "both" if both else sf, "sstyle": ss, "ids": i, "iform": if_,
+                        "istyle": is_, "params": p})
+            if i and if_ == "file" and rng.random() < 0.2:
+                # --id next to --ids-file
+                k = int(rng.integers(1, 3))
+                pool_ = (pool or hapids) if cmd == 2 else hapids
+                inp["iform"] = "both"
+                inp["ids_extra"] = [pool_[int(x)] for x in rng.integers(0, len(pool_), size=k)]
+        elif cmd == 3:
+            sort = bool(rng.random() < 0.6)
+            inp["lines"] = c11.gen_file(rng, "wf", "shuffled" if sort else ("blocks" if rng.random() < 0.8 else "shuffled"))
+            inp["params"] = {"sort": sort, "explicit": bool(rng.random() < 0.5)}
+        elif cmd == 4:
+            if rng.random() < 0.5:
+                # SNPs, STRs or both, VCF or PGEN, every field name / threshold explicit (C17's generator)
+                inp["clump"] = c17.gen_clump(rng)
+                inp["params"] = {}
+            else:
                 ds = gen_dataset(rng)
                 inp["data"] = ds
                 inp["pvals"] = [float(x) for x in rng.choice([1e-8, 1e-5, 5e-5, 0.001, 0.005, 0.02, 0.5],
                                                              size=len(ds["variants"]))]
-                inp["params"] = {"p1": [None, 0.001][int(rng.integers(0, 2))], "kb": [None, 0.5][int(rng.integers(0, 2))],
-                                 "r2": [None, 0.1][int(rng.integers(0, 2))], "ld": ["Pearson", "Exact", None][int(rng.integers(0, 3))]}
-            elif cmd == 5:
-                cfg = c01.make_config(rng)
-                cfg["popsize"] = int(rng.choice([10, 20, 30]))
-                inp["cfg"] = cfg
-                nref = 4
-                refs = []
-                for c in cfg["chroms"]:
-                    bps = [r[2] for r in cfg["maps"][c]]
-                    lo, hi = min(bps), max(bps)
-                    pos = set(int(x) for x in rng.integers(max(1, lo - 5), hi + 50, size=5))
-                    if cfg["region"] and rng.random() < 0.9:
-                        # keep the region non-empty (an empty region makes output_vcf raise IndexError)
-                        r_ = cfg["region"]
-                        pos.update(int(x) for x in rng.integers(r_["start"], r_["end"] + 1, size=2))
-                    pos = sorted(pos)
-                    for p_ in pos:
-                        refs.append([c, p_, rng.integers(0, 2, size=(nref * len(cfg["pops"]), 2)).tolist()])
-                inp["ref"] = refs
-                inp["params"] = {"only_bp": bool(rng.random() < 0.4), "pop_field": bool(rng.random() < 0.3),
-                                 "sample_field": bool(rng.random() < 0.3), "chunk": [None, 3][int(rng.integers(0, 2))],
-                                 "no_replacement": False}
-            else:
-                nchrom = int(rng.integers(1, 4))
-                haps = []
-                for h in range(2):
-                    blocks = []
-                    for c in range(1, nchrom + 1):
-                        nb = int(rng.integers(1, 4))
-                        ends = sorted(int(x) for x in rng.choice(np.arange(1000, 90000, 1000), size=nb, replace=False))
-                        for e in ends:
-                            blocks.append([["YRI", "CEU"][int(rng.integers(0, 2))], c, e, round(e / 1000.0, 3)])
-                    haps.append(blocks)
-                inp["bp"] = haps
-                inp["params"] = {"title": [None, "My_title"][int(rng.integers(0, 2))],
-                                 "colors": [None, "YRI:blue,CEU:red", "YRI:#1f77b4,CEU:green"][int(rng.choice(3, p=[0.2, 0.4, 0.4]))],
-                                 "sample": "Sample_1" if rng.random() < 0.9 else "Absent_9"}
-            out.append(inp)
+                inp["params"] = {"p1": [None, 0.001, 1.0][int(rng.integers(0, 3))],
+                                 "p2": [None, 0.0, 0.006, 1.0][int(rng.integers(0, 4))],
+                                 "kb": [None, 0.5, 0.0][int(rng.integers(0, 3))],
+                                 "r2": [None, 0.1, 0.0, 1.0][int(rng.integers(0, 4))],
+                                 "ld": ["Pearson", "Exact", None][int(rng.integers(0, 3))],
+                                 "fmt": ["vcf", "pgen"][int(rng.choice(2, p=[0.7, 0.3]))]}
+        elif cmd == 5:
+            cfg = c01.make_config(rng)
+            cfg["popsize"] = int(rng.choice([10, 20, 30]))
+            inp["cfg"] = cfg
+            nref = 4
+            refs = []
+            for c in cfg["chroms"]:
+                bps = [r[2] for r in cfg["maps"][c]]
+                lo, hi = min(bps), max(bps)
+                pos = set(int(x) for x in rng.integers(max(1, lo - 5), hi + 50, size=5))
+                if cfg["region"] and rng.random() < 0.9:
+                    # keep the region non-empty (an empty region makes output_vcf raise IndexError)
+                    r_ = cfg["region"]
+                    pos.update(int(x) for x in rng.integers(r_["start"], r_["end"] + 1, size=2))
+                pos = sorted(pos)
+                for p_ in pos:
+                    refs.append([c, p_, rng.integers(0, 2, size=(nref * len(cfg["pops"]), 2)).tolist()])
+            inp["ref"] = refs
+            inp["params"] = {"only_bp": bool(rng.random() < 0.35), "pop_field": bool(rng.random() < 0.3),
+                             "sample_field": bool(rng.random() < 0.3),
+                             "chunk": [None, 1, 3, 1000][int(rng.integers(0, 4))],
+                             "no_replacement": bool(rng.random() < 0.15),
+                             "out": ["vcf", "vcf", "vcf.gz", "bcf", "pgen"][int(rng.integers(0, 5))],
+                             "ref_fmt": ["vcf", "vcf", "pgen"][int(rng.integers(0, 3))]}
+        else:
+            nchrom = int(rng.integers(1, 4))
+            haps = []
+            for h in range(2):
+                blocks = []
+                for c in range(1, nchrom + 1):
+                    nb = int(rng.integers(1, 4))
+                    ends = sorted(int(x) for x in rng.choice(np.arange(1000, 90000, 1000), size=nb, replace=False))
+                    for e in ends:
+                        blocks.append([["YRI", "CEU"][int(rng.integers(0, 2))], c, e, round(e / 1000.0, 3)])
+                haps.append(blocks)
+            inp["bp"] = haps
+            inp["params"] = {"title": [None, "My_title"][int(rng.integers(0, 2))],
+                             "colors": [None, "YRI:blue,CEU:red", "YRI:#1f77b4,CEU:green"][int(rng.choice(3, p=[0.2, 0.4, 0.4]))],
+                             "sample": "Sample_1" if rng.random() < 0.9 else "Absent_9",
+                             "centromeres": bool(rng.random() < 0.3)}
+        inp["params"]["verbosity"] = verbosity
+        return inp
+
+    def generate(self, rng, n, tier):
+        return [self._case(rng, [0, 1, 2, 3, 4, 5, 6, 0, 1, 2][k % 10]) for k in range(n)]
+
+    def exhaustive(self, tier):
+        """every boundary seed x the two seeded commands, and every file shape x command x selection"""
+        rng = np.random.default_rng(19)
+        out = []
+        for cmd in (1, 5):
+            for seed in SEED_BOUNDARY:
+                c = self._case(rng, cmd)
+                c["seed"] = seed
+                out.append(c)
+        for cmd in (0, 1, 2):
+            for st in USER_STYLES:
+                for which in ("samples", "ids"):
+                    for _ in range(40):
+                        c = self._case(rng, cmd)
+                        if c.get(which) and c["sform"] != "both" and c["iform"] != "both":
+                            break
+                    else:
+                        continue
+                    c["sstyle" if which == "samples" else "istyle"] = st
+                    out.append(c)
         return out
 
     # ---- building the two ways of running a configuration
     def _files(self, inp, d):
         cmd = inp["cmd"]
+        p = inp["params"]
         f = {}
-        if cmd in (0, 1, 2, 4):
-            f["gt"], f["hg"], f["hp"] = write_dataset(inp["data"], d)
+        if cmd in (0, 1, 2) or (cmd == 4 and "data" in inp):
+            f["gt"], f["hg"], f["hp"] = write_dataset(inp["data"], d, p.get("fmt", "vcf"), bool(p.get("ancestry")),
+                                                      p.get("effects", "hap"))
         if cmd == 3:
             with open(os.path.join(d, "in.hap"), "w") as fh:
                 fh.write("".join(s + "\n" for s in inp["lines"]))
             f["hap"] = os.path.join(d, "in.hap")
-        if cmd == 4:
-            p = os.path.join(d, "stats.linear")
-            with open(p, "w") as fh:
+        if cmd == 4 and "data" in inp:
+            path = os.path.join(d, "stats.linear")
+            with open(path, "w") as fh:
                 fh.write("#CHROM\tPOS\tID\tREF\tALT\tA1\tTEST\tOBS_CT\tBETA\tSE\tT_STAT\tP\tERRCODE\n")
                 for (i, pos), pv in zip(inp["data"]["variants"], inp["pvals"]):
                     fh.write(f"1\t{pos}\t{i}\tA\tT\tT\tADD\t100\t0.5\t0.1\t5.0\t{pv!r}\t.\n")
-            f["stats"] = p
+            f["stats"] = path
+        if cmd == 4 and "clump" in inp:
+            from . import c17
+
+            f["clump"] = c17._write_inputs(inp["clump"], d)
         if cmd == 5:
             from . import c01
 
@@ -551,36 +759,64 @@ class Cli(Relation):
                 for i, s in enumerate(samples):
                     fh.write(f"{s}\t{cfg['pops'][i % len(cfg['pops'])]}\n")
             f["info"] = os.path.join(d, "info.tab")
-            f["ref"] = os.path.join(d, "ref.vcf.gz")
-            write_vcf(f["ref"], samples, [(c, p, f"{c}:{p}", "A", "T", g) for c, p, g in inp["ref"]])
+            f["ref"] = write_gts(os.path.join(d, "ref"), p.get("ref_fmt", "vcf"), samples,
+                                 [(c, p_, f"{c}:{p_}", "A", "T", g) for c, p_, g in inp["ref"]])
         if cmd == 6:
-            p = os.path.join(d, "in.bp")
-            with open(p, "w") as fh:
+            path = os.path.join(d, "in.bp")
+            with open(path, "w") as fh:
                 for h, blocks in enumerate(inp["bp"]):
                     fh.write(f"Sample_1_{h + 1}\n")
                     for b in blocks:
                         fh.write(f"{b[0]}\t{b[1]}\t{b[2]}\t{b[3]}\n")
-            f["bp"] = p
+            f["bp"] = path
+            if p.get("centromeres"):
+                cm = os.path.join(d, "centromeres.txt")
+                nchrom = max(b[1] for blocks in inp["bp"] for b in blocks)
+                with open(cm, "w") as fh:
+                    for c in range(1, nchrom + 1):
+                        fh.write(f"{c}\t0.0\t{40.0 + c}\t{95.0 + c}\n")
+                f["centromeres"] = cm
         return f
+
+    @staticmethod
+    def _without_unknown(inp):
+        """the same configuration without the entries that name nothing; None when there is nothing to compare with
+        (no unknown entry, or no known entry left in a selection)"""
+        if inp["cmd"] not in (0, 1, 2) or inp.get("sform") == "both":
+            return None
+        out = dict(inp)
+        changed = False
+        for k, unk in (("samples", UNKNOWN_S), ("ids", UNKNOWN_I), ("ids_extra", UNKNOWN_I)):
+            if inp.get(k):
+                kept = [e for e in inp[k] if e not in unk]
+                if len(kept) < len(inp[k]):
+                    if not kept:
+                        return None
+                    out[k] = kept
+                    changed = True
+        return out if changed else None
 
     def _argv(self, inp, f, d, outdir, tag, swap):
         cmd, p, sp = inp["cmd"], inp["params"], inp["spell"] ^ (0xFFF if swap else 0)
         bit = lambda j: (sp >> j) & 1
         a = [CMDS[cmd]]
-        verb = ["-v", "CRITICAL"] if bit(11) else ["--verbosity", "CRITICAL"]
+        verb = [] if p.get("verbosity") is None else ["-v" if bit(11) else "--verbosity", p["verbosity"]]
         if cmd in (0, 1, 2):
             sform, iform = inp["sform"], inp["iform"]
             if swap:
                 sform = {"opts": "file", "file": "opts", "both": "both"}[sform]
-                iform = {"opts": "file", "file": "opts"}[iform]
-            sstyle = inp["sstyle"] if not swap or inp["sstyle"] == "empty" else "lf"
-            istyle = inp["istyle"] if not swap or inp["istyle"] == "empty" else "lf"
+                iform = {"opts": "file", "file": "opts", "both": "both"}[iform]
+            # an empty file has no spelling as repeated options: it stays a file
             if swap and inp["sstyle"] == "empty":
                 sform = "file"
             if swap and inp["istyle"] == "empty":
                 iform = "file"
-            a += selection_args("s", sform, inp["samples"], sstyle, sp, d, tag)[0]
-            a += selection_args("i", iform, inp["ids"], istyle, sp >> 3, d, tag)[0]
+            a += selection_args("s", sform, inp["samples"], inp["sstyle"], sp, d, tag)[0]
+            if iform == "both":
+                a += selection_args("i", "opts", inp["ids_extra"], "lf", sp >> 3, d, tag)[0]
+                a += selection_args("i", "file", inp["ids"], inp["istyle"], sp >> 3, d, tag)[0]
+            else:
+                a += selection_args("i", iform, inp["ids"], inp["istyle"], sp >> 3, d, tag)[0]
             if p.get("region"):
                 a += ["--region", p["region"]]
             if p.get("chunk") is not None:
@@ -588,6 +824,8 @@ class Cli(Relation):
         if cmd == 0:
             if p["discard_missing"]:
                 a.append("--discard-missing")
+            if p.get("ancestry"):
+                a.append("--ancestry")
             if p["maf"] is not None:
                 a += ["--maf", str(p["maf"])]
             a += ["-o" if bit(8) else "--output", os.path.join(outdir, "out.pgen" if p.get("pgen") else "out.vcf")]
@@ -622,15 +860,22 @@ class Cli(Relation):
             if p["explicit"]:
                 a += ["-o" if bit(8) else "--output", os.path.join(outdir, "out.hap.gz")]
             a += verb + [src]
+        elif cmd == 4 and "clump" in inp:
+            cfg, paths = inp["clump"], f["clump"]
+            a += ["--ld", cfg["ld"], "--clump-p1", cfg["p1"], "--clump-p2", cfg["p2"], "--clump-kb", cfg["kb"],
+                  "--clump-r2", cfg["r2"], "--clump-id-field", cfg["fields"]["id"], "--clump-field", cfg["fields"]["p"],
+                  "--clump-chrom-field", cfg["fields"]["chrom"], "--clump-pos-field", cfg["fields"]["pos"]]
+            for opt, key in (("--summstats-snps", "summstats_snps"), ("--summstats-strs", "summstats_strs"),
+                             ("--gts-snps", "gts_snps"), ("--gts-strs", "gts_strs")):
+                if paths[key]:
+                    a += [opt, paths[key]]
+            a += ["--out", os.path.join(outdir, "out.clump")] + verb
         elif cmd == 4:
             a += ["--summstats-snps", f["stats"], "--gts-snps", f["gt"], "--clump-id-field", "ID",
                   "--clump-chrom-field", "CHROM", "--clump-pos-field", "POS"]
-            if p["p1"] is not None:
-                a += ["--clump-p1", str(p["p1"])]
-            if p["kb"] is not None:
-                a += ["--clump-kb", str(p["kb"])]
-            if p["r2"] is not None:
-                a += ["--clump-r2", str(p["r2"])]
+            for key, opt in (("p1", "--clump-p1"), ("p2", "--clump-p2"), ("kb", "--clump-kb"), ("r2", "--clump-r2")):
+                if p.get(key) is not None:
+                    a += [opt, str(p[key])]
             if p["ld"] is not None:
                 a += ["--ld", p["ld"]]
             a += ["--out", os.path.join(outdir, "out.clump")] + verb
@@ -643,21 +888,21 @@ class Cli(Relation):
                 a += ["--region", f"{r['chr']}:{r['start']}-{r['end']}"]
             else:
                 a += ["--chroms", ",".join(cfg["chroms"])]
-            if p["only_bp"]:
-                a.append("--only_breakpoint")
-            if p["pop_field"]:
-                a.append("--pop_field")
-            if p.get("sample_field"):
-                a.append("--sample_field")
+            for key, opt in (("only_bp", "--only_breakpoint"), ("pop_field", "--pop_field"),
+                             ("sample_field", "--sample_field"), ("no_replacement", "--no_replacement")):
+                if p.get(key):
+                    a.append(opt)
             if p.get("chunk") is not None:
                 a += ["-c" if bit(10) else "--chunk-size", str(p["chunk"])]
-            a += ["--out", os.path.join(outdir, "sim.vcf")] + verb
+            a += ["--out", os.path.join(outdir, "sim." + p.get("out", "vcf"))] + verb
         else:
             a += ["--bp", f["bp"], "--sample", p["sample"], "--out", os.path.join(outdir, "k.png")]
             if p["title"]:
                 a += ["--title", p["title"]]
             if p["colors"]:
                 a += ["--colors", p["colors"]]
+            if p.get("centromeres"):
+                a += ["--centromeres", f["centromeres"]]
             a += verb
         if swap and cmd >= 3:
             # same options in another order: options are position independent
@@ -665,7 +910,7 @@ class Cli(Relation):
             pos = [rest[-1]] if cmd == 3 else []
             opts = rest[:-1] if cmd == 3 else rest
             chunks, j = [], 0
-            flags = {"--no-sort", "--sort", "--only_breakpoint", "--pop_field", "--sample_field"}
+            flags = {"--no-sort", "--sort", "--only_breakpoint", "--pop_field", "--sample_field", "--no_replacement"}
             while j < len(opts):
                 if opts[j] in flags:
                     chunks.append(opts[j:j + 1])
@@ -682,13 +927,13 @@ class Cli(Relation):
         from haptools.logging import getLogger
 
         cmd, p = inp["cmd"], inp["params"]
-        log = getLogger(CMDS[cmd], "CRITICAL")
+        log = getLogger(CMDS[cmd], p.get("verbosity") or "INFO")
         sset = lambda l: None if l is None else set(l)
         if cmd == 0:
             from haptools.transform import transform_haps
 
             transform_haps(Path(f["gt"]), Path(f["hp"]), p.get("region"), sset(inp["samples"]), sset(inp["ids"]),
-                           p.get("chunk"), p["discard_missing"], False, p["maf"],
+                           p.get("chunk"), p["discard_missing"], bool(p.get("ancestry")), p["maf"],
                            Path(outdir) / ("out.pgen" if p.get("pgen") else "out.vcf"), log)
         elif cmd == 1:
             from haptools.sim_phenotype import simulate_pt
@@ -709,34 +954,46 @@ class Cli(Relation):
             src = os.path.join(outdir, "in.hap")
             shutil.copy(f["hap"], src)
             index_haps(Path(src), p["sort"], (Path(outdir) / "out.hap.gz") if p["explicit"] else None, log)
+        elif cmd == 4 and "clump" in inp:
+            from haptools.clump import clumpstr
+
+            cfg, paths = inp["clump"], f["clump"]
+            path = lambda k: None if paths[k] is None else Path(paths[k])
+            clumpstr(path("summstats_snps"), path("summstats_strs"), path("gts_snps"), path("gts_strs"),
+                     float(cfg["p1"]), float(cfg["p2"]), cfg["fields"]["id"], cfg["fields"]["p"], cfg["fields"]["chrom"],
+                     cfg["fields"]["pos"], float(cfg["kb"]), float(cfg["r2"]), cfg["ld"], Path(outdir) / "out.clump", log)
         elif cmd == 4:
             from haptools.clump import clumpstr
 
-            clumpstr(Path(f["stats"]), None, Path(f["gt"]), None, 0.0001 if p["p1"] is None else p["p1"], 0.01, "ID", "P",
-                     "CHROM", "POS", 250 if p["kb"] is None else p["kb"], 0.5 if p["r2"] is None else p["r2"],
-                     p["ld"] or "Pearson", Path(outdir) / "out.clump", log)
+            dflt = lambda k, v: v if p.get(k) is None else p[k]
+            clumpstr(Path(f["stats"]), None, Path(f["gt"]), None, dflt("p1", 0.0001), dflt("p2", 0.01), "ID", "P",
+                     "CHROM", "POS", dflt("kb", 250), dflt("r2", 0.5), p["ld"] or "Pearson",
+                     Path(outdir) / "out.clump", log)
         elif cmd == 5:
             import re
             from haptools.sim_genotype import output_vcf, simulate_gt, validate_params, write_breakpoints
 
             cfg = inp["cfg"]
-            out = os.path.join(outdir, "sim.vcf")
+            out = os.path.join(outdir, "sim." + p.get("out", "vcf"))
             region = dict(cfg["region"]) if cfg["region"] else None
             chroms = [region["chr"]] if region else list(cfg["chroms"])
             out_prefix = re.split(r"(\.vcf|\.bcf|\.vcf\.gz|\.pgen)$", out)[0]
+            # documented: the two flags do not apply to PGEN output
+            pgen_out = out.endswith(".pgen")
             popsize = validate_params(f["model"], f["mapdir"], chroms, cfg["popsize"], f["ref"], f["info"],
-                                      p["no_replacement"], region, p["only_bp"])
+                                      bool(p.get("no_replacement")), region, p["only_bp"])
             samples, pop_dict, bps = simulate_gt(f["model"], f["mapdir"], chroms, region, popsize, log, inp["seed"])
             bps = write_breakpoints(samples, pop_dict, bps, out_prefix, log)
             if not p["only_bp"]:
-                output_vcf(bps, chroms, f["model"], f["ref"], f["info"], region, p["pop_field"],
-                           bool(p.get("sample_field")), p["no_replacement"], out, log, p.get("chunk"))
+                output_vcf(bps, chroms, f["model"], f["ref"], f["info"], region, p["pop_field"] and not pgen_out,
+                           bool(p.get("sample_field")) and not pgen_out, bool(p.get("no_replacement")), out, log,
+                           p.get("chunk"))
         else:
             from haptools.karyogram import PlotKaryogram
 
             colors = dict(item.split(":") for item in p["colors"].split(",")) if p["colors"] else None
-            PlotKaryogram(f["bp"], p["sample"], os.path.join(outdir, "k.png"), log, centromeres_file=None,
-                          title=p["title"], colors=colors)
+            PlotKaryogram(f["bp"], p["sample"], os.path.join(outdir, "k.png"), log,
+                          centromeres_file=f.get("centromeres"), title=p["title"], colors=colors)
 
     def run_impl(self, inp):
         d = tempfile.mkdtemp(prefix="hv_c19_")
@@ -746,26 +1003,33 @@ class Cli(Relation):
             f = self._files(inp, d)
             I = L.Interner()
             res = {}
-            for tag, swap in (("cli", False), ("alt", True)):
+            runs = [("cli", inp, False), ("alt", inp, True)]
+            ref = self._without_unknown(inp)
+            if ref is not None:
+                runs.append(("ref", ref, False))
+            for tag, cfg, swap in runs:
                 outdir = os.path.join(d, tag, "o")
                 os.makedirs(outdir)
-                code, exc, raised, tail = invoke(self._argv(inp, f, os.path.join(d, tag), outdir, tag, swap))
-                res[tag] = {"exit": code, "exc": exc, "raised": raised, "out": intern_outputs(outdir, I), "tail": tail}
+                with Capture(CMDS[inp["cmd"]]) as cap:
+                    code, exc, raised, tail, _usage = invoke(self._argv(cfg, f, os.path.join(d, tag), outdir, tag, swap))
+                res[tag] = {"exit": code, "exc": exc, "raised": raised, "out": intern_outputs(outdir, I), "tail": tail,
+                            "msgs": cap.msgs}
                 if tag == "cli":
                     res["members"] = out_members(inp["cmd"], outdir, inp["params"])
             outdir = os.path.join(d, "py", "o")
             os.makedirs(outdir)
-            try:
-                self._python(inp, f, outdir)
-                res["py"] = {"ok": intern_outputs(outdir, I)}
-            except SystemExit as e:
-                # karyogram reports an absent sample with sys.exit(1)
-                if e.code in (0, None):
+            with Capture(CMDS[inp["cmd"]]):
+                try:
+                    self._python(inp, f, outdir)
                     res["py"] = {"ok": intern_outputs(outdir, I)}
-                else:
-                    res["py"] = {"err": err_kind(e), "cls": "SystemExit", "msg": str(e.code)}
-            except Exception as e:  # noqa
-                res["py"] = {"err": err_kind(e), "cls": type(e).__name__, "msg": str(e)[:200]}
+                except SystemExit as e:
+                    # karyogram reports an absent sample with sys.exit(1)
+                    if e.code in (0, None):
+                        res["py"] = {"ok": intern_outputs(outdir, I)}
+                    else:
+                        res["py"] = {"err": err_kind(e), "cls": "SystemExit", "msg": str(e.code)}
+                except Exception as e:  # noqa
+                    res["py"] = {"err": err_kind(e), "cls": type(e).__name__, "msg": str(e)[:200]}
             return res
         finally:
             tempfile.tempdir = old_tmp
@@ -774,29 +1038,44 @@ class Cli(Relation):
     def encode(self, inp, obs):
         cmd = inp["cmd"]
         if "cli" not in obs:
-            return f"(mkcc {cmd} false 97 false [] (Err 97) None None [] None None [] None)"
+            return (f"(mkcc {cmd} false false false 97 false [] (Err 97) None None false [] "
+                    f"None [] None None [] None)")
         both = inp.get("sform") == "both"
+        ids_both = inp.get("iform") == "both"
         c, alt = obs["cli"], obs["alt"]
         I = L.Interner()
         zs = lambda l: L.zl([I(x) for x in l])
         oz = lambda l: "None" if l is None else f"(Some {zs(l)})"
         known_s = known_i = []
-        req_s = req_i = None
+        req_s = req_i = sel_i = None
         out_s, out_i = obs.get("members", (None, None))
+        p = inp["params"]
         if cmd in (0, 1, 2):
             ds = inp["data"]
             known_s = ds["samples"]
-            known_i = [v[0] for v in ds["variants"]] if inp["params"].get("from_gts") else [h["id"] for h in ds["haps"]]
+            known_i = [v[0] for v in ds["variants"]] if p.get("from_gts") else [h["id"] for h in ds["haps"]]
             req_s, req_i = inp["samples"], inp["ids"]
-            if cmd == 2 and req_i is not None and not inp["params"].get("from_gts"):
-                req_i = req_i + [inp["params"]["target"]]
-            if cmd == 2 and inp["params"].get("from_gts") and req_i is not None:
+            sel_i = inp["ids"]
+            if cmd == 2 and req_i is not None and not p.get("from_gts"):
+                req_i = req_i + [p["target"]]
+            if cmd == 2 and p.get("from_gts") and req_i is not None:
                 # --from-gts: the variants of the target haplotype are part of the request
-                tv = [v[0] for h in ds["haps"] if h["id"] == inp["params"]["target"] for v in h["vars"]]
-                req_i = req_i + tv
-        return (f"(mkcc {cmd} {L.b(both)} {L.z(c['exit'])} {L.b(c['raised'])} {L.zl(c['out'])} "
-                f"{L.res(obs['py'], L.zl)} (Some ({L.z(alt['exit'])}, {L.zl(alt['out'])})) "
-                f"{oz(req_s)} {zs(known_s)} {oz(out_s)} {oz(req_i)} {zs(known_i)} {oz(out_i)})")
+                tv = [v[0] for h in ds["haps"] if h["id"] == p["target"] for v in h["vars"]]
+                req_i = req_i + tv + [p["target"]]
+        # messages: only needed to judge "reported", i.e. when the comparison run without unknown entries exists
+        msg = lambda m: f"({L.z(m[0])}, {L.z(I(('msg', m[1])))}, {zs(words_of(m[1]))})"
+        ref = "None"
+        logs = "[]"
+        if "ref" in obs:
+            r = obs["ref"]
+            ref = (f"(Some ({L.z(r['exit'])}, {L.zl(r['out'])}, "
+                   f"{L.zl([I(('msg', m[1])) for m in r['msgs']])}))")
+            logs = L.lst(c["msgs"], msg)
+        verbose = p.get("verbosity") in (None, "INFO", "WARNING", "DEBUG")
+        return (f"(mkcc {cmd} {L.b(both)} {L.b(ids_both)} {L.b(bool(p.get('from_gts')))} {L.z(c['exit'])} "
+                f"{L.b(c['raised'])} {L.zl(c['out'])} "
+                f"{L.res(obs['py'], L.zl)} (Some ({L.z(alt['exit'])}, {L.zl(alt['out'])})) {ref} {L.b(verbose)} {logs} "
+                f"{oz(req_s)} {zs(known_s)} {oz(out_s)} {oz(sel_i)} {oz(req_i)} {zs(known_i)} {oz(out_i)})")
 
     def nontrivial(self, inp, obs):
         if "cli" not in obs:
@@ -805,43 +1084,77 @@ class Cli(Relation):
         return bool(restricted or (obs["cli"]["exit"] == 0 and len(obs["cli"]["out"]) > 2))
 
     def classes(self, inp, obs):
-        out = [CMDS[inp["cmd"]]]
+        name = CMDS[inp["cmd"]]
+        out = [name]
+        p = inp["params"]
         if inp["cmd"] in (0, 1, 2):
             out.append(f"samples:{inp['sform'] if inp['samples'] is not None else 'none'}")
             out.append(f"ids:{inp['iform'] if inp['ids'] is not None else 'none'}")
-            for k, u in (("samples", "NOSUCHSAMPLE"), ("ids", "NOSUCHID")):
+            out.append(f"input:{p.get('fmt', 'vcf')}")
+            for k, u, st in (("samples", UNKNOWN_S, "sstyle"), ("ids", UNKNOWN_I, "istyle")):
                 if inp[k] is not None:
-                    if u in inp[k]:
+                    if any(e in u for e in inp[k]):
                         out.append(f"unknown-{k}")
                     if len(set(inp[k])) < len(inp[k]):
                         out.append("duplicates")
                     if not inp[k]:
                         out.append(f"empty-{k}-file")
+                    elif inp[st] != "lf":
+                        out.append(f"{name}:{k}-file-style:{inp[st]}")
+            if "ref" in obs:
+                out.append(f"{name}:compared-without-unknown-entries")
+            for key in ("region", "ancestry", "discard_missing", "from_gts"):
+                if p.get(key):
+                    out.append(f"{name}:{key}")
+            for key in ("maf", "prevalence", "heritability", "environment"):
+                if p.get(key) is not None and p[key] == 0:
+                    out.append(f"{name}:{key}=0")
+            if p.get("chunk") is not None:
+                out.append(f"chunk={'1' if p['chunk'] == 1 else ('all+' if p['chunk'] >= len(inp['data']['variants']) else 'k')}")
+        if inp["cmd"] in (1, 5):
+            out.append(f"{name}:seed={inp['seed'] if inp['seed'] in SEED_BOUNDARY else 'other'}")
+        if inp["cmd"] == 4:
+            out.append("clump:" + (inp["clump"]["kind"] + ":" + "+".join(k for k in ("snp", "str") if inp["clump"][k])
+                                   if "clump" in inp else "snp-defaults"))
+        if inp["cmd"] == 5:
+            out.append(f"simgenotype:out={p.get('out', 'vcf')}")
+        out.append(f"verbosity={p.get('verbosity')}")
         if "cli" in obs:
-            out.append(f"{CMDS[inp['cmd']]}:exit={obs['cli']['exit']}")
+            out.append(f"{name}:exit={obs['cli']['exit']}")
             if "err" in obs["py"]:
-                out.append(f"{CMDS[inp['cmd']]}:py-raised-{obs['py'].get('cls')}")
+                out.append(f"{name}:py-raised-{obs['py'].get('cls')}")
         return out
 
     def shrink(self, inp):
         if inp["cmd"] in (0, 1, 2):
+            if inp.get("iform") == "both":
+                yield {k: v for k, v in dict(inp, iform="file").items() if k != "ids_extra"}
             for k, f, st in (("samples", "sform", "sstyle"), ("ids", "iform", "istyle")):
                 if inp[k] is not None:
-                    if not (k == "samples" and inp["sform"] == "both"):
+                    if not (k == "samples" and inp["sform"] == "both") and not (k == "ids" and inp["iform"] == "both"):
                         yield dict(inp, **{k: None, f: "opts", st: "lf"})
                     for j in range(len(inp[k])):
                         if len(inp[k]) > 1:
                             yield dict(inp, **{k: inp[k][:j] + inp[k][j + 1:]})
+                    if inp[st] not in ("lf", "empty"):
+                        yield dict(inp, **{st: "lf"})
             p = inp["params"]
             for key, v in (("region", None), ("maf", None), ("discard_missing", False), ("prevalence", None),
-                           ("heritability", None), ("replications", 1)):
+                           ("heritability", None), ("replications", 1), ("environment", None), ("ancestry", False),
+                           ("chunk", None), ("pgen", False), ("fmt", "vcf"), ("effects", "hap"), ("verbosity", None),
+                           ("normalize", True)):
                 if key in p and p[key] != v:
                     yield dict(inp, params=dict(p, **{key: v}))
+        if inp["cmd"] in (1, 5) and inp["seed"] not in (0, 1):
+            yield dict(inp, seed=1)
         if inp["spell"]:
             yield dict(inp, spell=0)
 
     def mutate(self, inp, rng):
-        for _ in range(4):
+        for s in SEED_BOUNDARY:
+            if inp["cmd"] in (1, 5) and inp["seed"] != s:
+                yield dict(inp, seed=s)
+        for _ in range(3):
             yield dict(inp, spell=int(rng.integers(0, 1 << 12)), seed=int(rng.integers(1, 2**31 - 1)))
 
     def signature(self, inp, obs):
@@ -849,9 +1162,11 @@ class Cli(Relation):
             return f"cli {CMDS[inp['cmd']]} unobserved"
         files = [n for n, k, f in (("samples-file", "samples", "sform"), ("ids-file", "ids", "iform"))
                  if inp.get(k) is not None]
+        ref = obs.get("ref")
         return (f"cli {CMDS[inp['cmd']]} selection={'+'.join(files) or 'none'} exit={obs['cli']['exit']} "
                 f"raised={obs['cli']['exc']} respelled-exit={obs['alt']['exit']} respelled-raised={obs['alt']['exc']} "
-                f"python={'ok' if 'ok' in obs['py'] else obs['py'].get('cls')}")
+                f"python={'ok' if 'ok' in obs['py'] else obs['py'].get('cls')}"
+                + (f" without-unknown-exit={ref['exit']}" if ref else ""))
 
 
 RELATIONS = [Resolve(), Cli()]
